@@ -53,14 +53,15 @@ def showChan : Option (Nat × Nat) → String
   | none => "H-"
   | some (f, k) => s!"H{f}.{k}"
 
-def showDev (d : Dev) : String :=
-  s!"R{b d.loopFlag}N{d.loops}E{b d.enabled}L{d.lock}A{b d.acquiring}C{b d.ctrlOpen}S{b d.strmOpen}X{b d.ctxt.isSome}K{b d.cache.lock}{b d.cache.start}{b d.cache.stop}{b d.cache.gain}{b d.cache.gate}G{d.gate}{showChan d.chan}"
+def showDev (hideChan : Bool) (d : Dev) : String :=
+  s!"R{b d.loopFlag}N{d.loops}E{b d.enabled}L{d.lock}A{b d.acquiring}C{b d.ctrlOpen}S{b d.strmOpen}X{b d.ctxt.isSome}K{b d.cache.lock}{b d.cache.start}{b d.cache.stop}{b d.cache.gain}{b d.cache.gate}G{d.gate}{if hideChan then "H?" else showChan d.chan}"
 
 /-- a request step: a call of the camera, or state surgery through the public API -/
 inductive Step where
   | call (op : Op)
   | preload   -- `Camera::new(.., Some(ctxt), ..)` / `set_context`: install a fresh context
   | unload    -- `camera.ctxt = None`
+  | die       -- environment event: the receive loop thread dies on its own
 
 def stepOf (s : String) : Option Step :=
   if s == "open" then some (.call .open)
@@ -70,6 +71,7 @@ def stepOf (s : String) : Option Step :=
   else if s == "param" then some (.call .param)
   else if s == "preload" then some .preload
   else if s == "unload" then some .unload
+  else if s == "die" then some .die
   else if s.startsWith "start" then (s.drop 5).toNat?.map (fun c => .call (.start c))
   else if s.startsWith "gate" then (s.drop 4).toNat?.map (fun v => .call (.gate v))
   else none
@@ -83,6 +85,7 @@ def doStep (env : Env) (st : Step) (s : State) : Res Err Unit × State :=
       (.ok (), { s with dev := { s.dev with ctxt := some env.xml, cache := Cache.empty } })
     else (.err .controlInvalidData, s)
   | .unload => (.ok (), { s with dev := { s.dev with ctxt := none, cache := Cache.empty } })
+  | .die => stepEv env .loopDies s
 
 def xmlOf (s : String) : Option Xml :=
   match s.toList with
@@ -93,13 +96,13 @@ def faultsOf (s : String) : Option (List Nat) :=
   if s == "-" then some [] else (s.splitOn ",").mapM String.toNat?
 
 /-- run the steps one by one: (results with state after each step, trace segments) -/
-def runAll (env : Env) (kind : Nat) : List Step → State → String × String
+def runAll (env : Env) (kind : Nat) (hideChan : Bool) : List Step → State → String × String
   | [], _ => ("", "")
   | st :: sts, s =>
     let (r, s') := doStep env st s
     let seg := s'.trace.drop s.trace.length
-    let (a, t) := runAll env kind sts s'
-    (s!"{showRes kind r}[{showDev s'.dev}] " ++ a,
+    let (a, t) := runAll env kind hideChan sts s'
+    (s!"{showRes kind r}[{showDev hideChan s'.dev}] " ++ a,
      seg.foldl (fun acc e => acc ++ " " ++ subTok e.sub ++ outTok e.out) "" ++ " ;" ++ t)
 
 /-- order token: first char = which handle `open` opens first, second char = which handle
@@ -113,10 +116,12 @@ def handle : List String → String
   | "run" :: xml :: mode :: kind :: order :: faults :: ops =>
     match xmlOf xml, kind.toNat?, orderOf order, faultsOf faults, ops.mapM stepOf with
     | some xml, some kind, some (oc, cc), some fs, some sts =>
-      if mode != "keep" && mode != "kill" then "bad-op" else
+      if mode != "keep" && mode != "kill" && mode != "u3v" && mode != "u3vr" then "bad-op" else
       let env : Env := { plan := fun k => fs.contains k, xml := xml, stopFailKills := mode == "kill",
-                         openCtrlFirst := oc, closeCtrlFirst := cc }
-      let (a, t) := runAll env kind sts State.init
+                         openCtrlFirst := oc, closeCtrlFirst := cc,
+                         handle := if mode == "u3v" || mode == "u3vr" then .u3v else .fake }
+      -- "u3vr": the REAL u3v::StreamHandle is driven; its loop owns the sender, the channel is not probed
+      let (a, t) := runAll env kind (mode == "u3vr") sts State.init
       a ++ "|" ++ t
     | _, _, _, _, _ => "bad-op"
   | _ => "bad-op"
